@@ -27,10 +27,19 @@ def main():
         exp = rules[0].split()[0] if rules else ""
         notes = open(os.path.join(d, "notes.md")).read().strip().splitlines() if os.path.exists(os.path.join(d, "notes.md")) else []
         first = next((l.strip("# *-").strip() for l in notes if l.strip() and not l.startswith("#")), "")[:200]
-        hdr = [f"# property: C{i:02d}"]
+        prop = f"C{i:02d}"
+        extra_note = ""
+        if not own.get("fired"):
+            others = sorted(c for c, v in m["checks_on_patched_tree"].items() if v.get("fired"))
+            if not others:
+                print(f"{prefix}-C{i:02d}: no check fires (not decided): kept under seeded/ only, not registered as a self-test violation")
+                continue
+            prop = others[0]
+            extra_note = f"(own property C{i:02d} is not decided for this change; registered under {prop}, which fires) "
+        hdr = [f"# property: {prop}"]
         if exp:
             hdr.append(f"# expect: {exp}")
-        hdr.append(f"# note: written by an independent sub-agent ({label}) from the property text alone; confirmed by its demo: {first}")
+        hdr.append(f"# note: {extra_note}written by an independent sub-agent ({label}) from the property text alone; confirmed by its demo: {first}")
         out = os.path.join(VERIF, "selftest", "violations", f"seed-{prefix}-C{i:02d}.patch")
         open(out, "w").write("\n".join(hdr) + "\n" + open(os.path.join(d, "patch.diff")).read())
         print(f"{prefix}-C{i:02d}", "own fired" if own.get("fired") else "OWN PROPERTY QUIET", exp)
